@@ -38,7 +38,17 @@ func (p *Prog) clientBlockOK() (bool, []string) {
 		if len(l) == 4 {
 			if ifs, ok := l[0].(*ast.IfStmt); ok && squash(p.text(ifs.Cond)) == "fr.Type()!=FrameContinuation" && ifs.Else == nil {
 				b := ifs.Body.List
-				okStart = len(b) == 4 && hasStmt(p, b, "hb.carry=hb.carry[:0]") && hasStmt(p, b, "hb.fields=0") && hasStmt(p, b, "hb.regularSeen=false") && hasStmt(p, b, "hb.endStream=fr.Flags().Has(FlagEndStream)")
+				okStart = hasStmt(p, b, "hb.carry=hb.carry[:0]") && hasStmt(p, b, "hb.fields=0") && hasStmt(p, b, "hb.regularSeen=false") && hasStmt(p, b, "hb.endStream=fr.Flags().Has(FlagEndStream)")
+				// anything else in there clears a mark of the block
+				for _, t := range stmtTexts(p, b) {
+					switch t {
+					case "hb.carry=hb.carry[:0]", "hb.fields=0", "hb.regularSeen=false", "hb.endStream=fr.Flags().Has(FlagEndStream)":
+					default:
+						if !(strings.HasPrefix(t, "hb.") && strings.HasSuffix(t, "=false")) {
+							okStart = false
+						}
+					}
+				}
 			}
 		}
 		if !okStart {
